@@ -23,9 +23,18 @@ RULE = (
     "values above), optionally scaled globally / per column, made "
     "rank-deficient (repeated / zero column, zero row, rank 1) or zero.  "
     "Limit cases repeat the checks with S_y*eps resp. S_a*eps, eps = 1e-2 "
-    "... 1e-10.  Oracle = numpy.linalg.solve of the n-form and of the "
+    "... 1e-10.  K, S_a, S_y are handed over C-ordered, Fortran-ordered, as "
+    "transposed view or as strided view of a larger array; after the calls "
+    "all inputs must be bitwise unchanged.  history: n <= 6, m <= 8; the "
+    "same ndarray objects (also the averaging kernel handed to "
+    "smoothing_error) are evaluated, updated in place 1-5 times (K / S_a / "
+    "S_y scaled, overwritten with a new drawn matrix, K zeroed; e_y, x "
+    "overwritten; or left alone) and evaluated again after every update "
+    "against the references for the current values.  Oracle = numpy.linalg.solve of the n-form and of the "
     "m-form.  Non-trivial = (n != m or a covariance with off-diagonal "
-    "entries) and the case is compared (not ill-conditioned).  Distinct = "
+    "entries) and the case is compared (not ill-conditioned); for a "
+    "history: an in-place update of K / S_a / S_y between two compared "
+    "evaluations.  Distinct = "
     "distinct case hash."
 )
 ASSUMPTIONS = [
@@ -57,6 +66,25 @@ def rel(a, b):
     return d / nb if nb > 0 else d
 
 
+LAYOUTS = ["C", "C", "F", "T", "strided"]
+layout_strategy = st.sampled_from(LAYOUTS)
+
+
+def as_layout(a, layout):
+    """the same values as a C-ordered copy, a Fortran-ordered copy, the
+    transposed view of a C-ordered array or a strided view of a larger one"""
+    a = np.array(a, dtype=float)
+    if layout == "F":
+        return np.asfortranarray(a)
+    if layout == "T":
+        return np.ascontiguousarray(a.T).T
+    if layout == "strided":
+        big = np.full((2 * a.shape[0], 2 * a.shape[1] + 1), np.nan)
+        big[::2, 1::2] = a
+        return big[::2, 1::2]
+    return np.ascontiguousarray(a)
+
+
 @st.composite
 def oem_cases(draw):
     n = draw(st.one_of(st.integers(1, 6), st.integers(1, 30)))
@@ -79,14 +107,16 @@ def oem_cases(draw):
         "xa": draw(st.lists(vec, min_size=n, max_size=n)),
         "ey": draw(st.lists(vec, min_size=m, max_size=m)),
         "limit": limit,
+        "layout": {k: draw(layout_strategy) for k in ("K", "Sa", "Sy")},
     }
 
 
-def identities(ctx, K, Sa, Sy, x, xa, ey, tag=""):
+def identities(ctx, K, Sa, Sy, x, xa, ey, tag="", A_buf=None):
     """All identities for one (K, S_a, S_y).  Returns (tol or None, A)."""
     from typhon.retrieval import oem
     m, n = K.shape
     eye = np.eye(n)
+    saved = [np.array(a, copy=True) for a in (K, Sa, Sy, x, xa, ey)]
     # --- references -------------------------------------------------------
     SyiK = np.linalg.solve(Sy, K)
     Sai = np.linalg.solve(Sa, eye)
@@ -163,6 +193,9 @@ def identities(ctx, K, Sa, Sy, x, xa, ey, tag=""):
                   "eigenvalues %r (tolerance %.3g); %s" % (lam, etol, info())))
 
     # --- error terms ----------------------------------------------------------
+    if A_buf is not None:
+        A_buf[...] = A_m          # the same array object in every evaluation
+        A_m = A_buf
     se = oem.smoothing_error(x, xa, A_m)
     ref = A_m @ (x - xa)
     ctx.check(np.shape(se) == (n,) and fro(se - ref) <= 1e-12 * (
@@ -174,17 +207,27 @@ def identities(ctx, K, Sa, Sy, x, xa, ey, tag=""):
         tol + 1e-13) * np.linalg.norm(G_m, 2) * fro(ey) + 1e-300,
         "retrieval_noise", lambda: "got %r expected %r; %s" % (
             rn, ref, info()))
+    for name, now, before in zip(("K", "S_a", "S_y", "x", "x_a", "e_y"),
+                                 (K, Sa, Sy, x, xa, ey), saved):
+        ctx.check(np.array_equal(now, before), "inputs-modified", lambda: (
+            "%s was changed by the calls%s: before %r, after %r" % (
+                name, tag, before, now)))
     return tol, np.asarray(A)
 
 
 def check_oem(case, ctx):
     n, m = case["n"], case["m"]
-    K = np.array(case["K"], dtype=float).reshape(m, n)
-    Sa = np.array(case["Sa"], dtype=float).reshape(n, n)
-    Sy = np.array(case["Sy"], dtype=float).reshape(m, m)
+    lay = case.get("layout") or {"K": "C", "Sa": "C", "Sy": "C"}
+    K = as_layout(np.array(case["K"], dtype=float).reshape(m, n), lay["K"])
+    Sa = as_layout(np.array(case["Sa"], dtype=float).reshape(n, n), lay["Sa"])
+    Sy = as_layout(np.array(case["Sy"], dtype=float).reshape(m, m), lay["Sy"])
     x = np.array(case["x"], dtype=float)
     xa = np.array(case["xa"], dtype=float)
     ey = np.array(case["ey"], dtype=float)
+    for k in ("K", "Sa", "Sy"):
+        ctx.label("layout-%s-%s" % (k, lay[k]))
+    if "F" in lay.values() or "T" in lay.values():
+        ctx.label("layout-fortran-ordered-input")
     ctx.label("under" if m < n else "over" if m > n else "square")
     ctx.label("K-" + case["K_kind"], "Sa-" + case["Sa_structure"],
               "Sy-" + case["Sy_structure"])
@@ -252,8 +295,98 @@ def check_oem(case, ctx):
             ctx.label("limit-prior-reached(|A|<1e-3)")
 
 
+# --------------------------------------------------------------------------
+# histories: the same array objects, updated in place between the calls
+# --------------------------------------------------------------------------
+@st.composite
+def history_cases(draw):
+    n = draw(st.integers(1, 6))
+    m = draw(st.integers(1, 8))
+    vec = st.floats(-10.0, 10.0, allow_nan=False)
+    case = {
+        "n": n, "m": m,
+        "K": draw(GM.jacobian(m, n))["matrix"],
+        "Sa": draw(GM.spd(n))["matrix"], "Sy": draw(GM.spd(m))["matrix"],
+        "x": draw(st.lists(vec, min_size=n, max_size=n)),
+        "xa": draw(st.lists(vec, min_size=n, max_size=n)),
+        "ey": draw(st.lists(vec, min_size=m, max_size=m)),
+        "layout": {k: draw(layout_strategy) for k in ("K", "Sa", "Sy")},
+    }
+    steps = []
+    for _ in range(draw(st.integers(1, 5))):
+        target = draw(st.sampled_from(["K", "K", "Sa", "Sy", "Sy", "ey", "x",
+                                       "none"]))
+        step = {"target": target}
+        if target == "none":
+            step["op"] = "none"
+        elif target in ("ey", "x"):
+            step["op"] = "assign"
+            k = m if target == "ey" else n
+            step["value"] = draw(st.lists(vec, min_size=k, max_size=k))
+        else:
+            op = draw(st.sampled_from(
+                ["scale", "assign"] + (["zero"] if target == "K" else [])))
+            step["op"] = op
+            if op == "scale":
+                step["factor"] = draw(st.sampled_from(
+                    [25.0, 0.04, 2.0, 0.5, 100.0, 3.0]
+                    + ([-1.0] if target == "K" else [])))
+            elif op == "assign":
+                step["value"] = draw(
+                    GM.jacobian(m, n) if target == "K" else
+                    GM.spd(n if target == "Sa" else m))["matrix"]
+        steps.append(step)
+    case["steps"] = steps
+    return case
+
+
+def check_history(case, ctx):
+    n, m = case["n"], case["m"]
+    lay = case["layout"]
+    obj = {
+        "K": as_layout(np.array(case["K"], dtype=float).reshape(m, n),
+                       lay["K"]),
+        "Sa": as_layout(np.array(case["Sa"], dtype=float).reshape(n, n),
+                        lay["Sa"]),
+        "Sy": as_layout(np.array(case["Sy"], dtype=float).reshape(m, m),
+                        lay["Sy"]),
+        "x": np.array(case["x"], dtype=float),
+        "xa": np.array(case["xa"], dtype=float),
+        "ey": np.array(case["ey"], dtype=float),
+    }
+    A_buf = np.zeros((n, n))
+    for k in ("K", "Sa", "Sy"):
+        ctx.label("layout-%s-%s" % (k, lay[k]))
+    if "F" in lay.values() or "T" in lay.values():
+        ctx.label("layout-fortran-ordered-input")
+
+    def evaluate(tag):
+        tol, _ = identities(ctx, obj["K"], obj["Sa"], obj["Sy"], obj["x"],
+                            obj["xa"], obj["ey"], tag, A_buf)
+        return tol is not None
+
+    compared = evaluate("@step0")
+    for i, step in enumerate(case["steps"]):
+        t, op = step["target"], step["op"]
+        ctx.label("step-%s-%s" % (t, op))
+        if op == "scale":
+            obj[t] *= step["factor"]
+        elif op == "zero":
+            obj[t][...] = 0.0
+        elif op == "assign":
+            obj[t][...] = np.array(step["value"], dtype=float).reshape(
+                obj[t].shape)
+        now = evaluate("@step%d(after %s of %s in place)" % (i + 1, op, t))
+        if now and compared and t in ("K", "Sa", "Sy"):
+            ctx.nontrivial = True
+            ctx.label("in-place-update-then-compared")
+        compared = now
+
+
 def suites(tier):
     return [
         Suite("identities", check_oem, strategy=oem_cases(),
-              examples={"quick": 2000, "thorough": 12000}),
+              examples={"quick": 1700, "thorough": 10000}),
+        Suite("history", check_history, strategy=history_cases(),
+              examples={"quick": 300, "thorough": 3000}),
     ]
